@@ -128,7 +128,7 @@ def run(ck: Check):
     for a, mode in muts:
         r = ck.tlc("Lifecycle", cfg(["mem", "hdf-shared"], 2, 1, props=False, methods=("dumps",),
                                      **{mode: '{"%s"}' % a}),
-                   workers=1, timeout=170, count=False, coverage=False, expect_ok=False)
+                   workers=1, timeout=600, count=False, coverage=False, expect_ok=False)
         want = expect_shared[a] if mode == "shared" else None
         if not r.violated or (want and r.violated != want):
             raise MachineryError(f"Lifecycle with {mode}={a} should be refuted ({want or 'SameBehaviour/...'}) "
@@ -147,7 +147,7 @@ def run(ck: Check):
     graph_of = {}
     ck.extra["graphs"] = []
     for names, p_, s_ in groups:
-        ck.tlc("Lifecycle", cfg(names, p_, s_), workers=4, timeout=175, dump=True,
+        ck.tlc("Lifecycle", cfg(names, p_, s_), workers=4, timeout=900, dump=True,
                require_actions=ACTIONS if "simple" in names else ACTIONS[:4] + ("Pickle",))
         g = Graph(ck.work / "Lifecycle.dot")
         (ck.work / "Lifecycle.dot").unlink()
@@ -161,7 +161,7 @@ def run(ck: Check):
         for group, s_ in ((["simple", "stateful", "nocache"], 3), (["mem"], 3), (["hdf-shared"], 3),
                           (["hdf-snapshot", "jacinrun", "jacinrun-hdf", "db"], 2)):
             try:
-                r = ck.tlc("Lifecycle", cfg(group, 3, s_, methods=("dumps",)), workers=4, timeout=175,
+                r = ck.tlc("Lifecycle", cfg(group, 3, s_, methods=("dumps",)), workers=4, timeout=420,
                            require_actions=ACTIONS[:4])
             except MachineryError as ex:
                 if "timed out" not in str(ex) or s_ == 2:
@@ -170,7 +170,7 @@ def run(ck: Check):
                 # and check the next smaller bound instead
                 ck.extra["deep_runs"].append({"configs": group, "MaxPre": 3, "MaxSuf": s_, "result": "timed out"})
                 s_ = 2
-                r = ck.tlc("Lifecycle", cfg(group, 3, s_, methods=("dumps",)), workers=4, timeout=175,
+                r = ck.tlc("Lifecycle", cfg(group, 3, s_, methods=("dumps",)), workers=4, timeout=900,
                            require_actions=ACTIONS[:4])
             ck.extra["deep_runs"].append({"configs": group, "MaxPre": 3, "MaxSuf": s_, "distinct": r.distinct})
             log(f"deep {group} (3,{s_}) {time.time() - t_start:.0f}s")
